@@ -211,3 +211,79 @@ def native_replay(ob_id, v):
     if ob_id == 'C16.a-create_subscription' and v['label'] == 'half-created':
         return {'judge': 'half_created', 'scenario': 'create_subscription_abandoned', 'lib': True}
     return None
+
+
+class TopicReceiveDropped(Obligation):
+    """TopicActor::receive(request) when the caller has gone away: the request is still carried out"""
+    tier = 'T3'
+
+    def __init__(self, ctx, variant):
+        self.variant = variant
+        self.id = 'C16.b-topic-receive-' + variant
+        self.desc = 'TopicActor::receive(%s) with the reply receiver already dropped: the request is carried out exactly as with a live caller' % variant
+        self.bounds = {'attached_subscriptions': 2}
+        self.unroll = 6
+        install_tokens(ctx)
+
+    def body(self, ip, p):
+        ctx = ip.ctx
+        from props.C11 import sym_topic_actor
+        from props.C08 import sym_topic_message
+        ctx.on_enqueue = default_reply
+        cell, ents, dele, mstate, own, oname, other_u, reg = sym_topic_actor(ctx, p, 2, deleted=False)
+        p.counter += 1
+        tx = OneshotTx(p.counter)
+        ev = ctx.src.enum_variants('TopicRequest')
+        idx = [i for i, (n, _) in enumerate(ev) if n == self.variant][0]
+        extra = {}
+        if self.variant == 'AttachSubscription':
+            t = p.fresh('new_sub_tok')
+            extra['tok'] = t
+            payload = (ArcTok(t, 'Subscription'), tx)
+        elif self.variant == 'RemoveSubscription':
+            nm = sym_name(ctx, p, 'SubscriptionName', 'rm')
+            extra['name'] = nm
+            payload = (nm, tx)
+        elif self.variant == 'PublishMessages':
+            msg, _, _ = sym_topic_message(ctx, p, 0)
+            payload = (Seq([msg], 1), tx)
+        else:
+            payload = (tx,)
+        req = Enum('TopicRequest', idx, {idx: payload})
+        p.receiver_dropped = True
+        pre_next = fld(ctx, cell.v, 'TopicActor', 'next_message_id').t
+        coro = run_to_end(ip.call_fn(ctx.fn('TopicActor', 'receive'), [Ref(Loc(cell), True), req]))
+        run_async(ip, p, coro, budget=0)
+        return {'cell': cell, 'ents': ents, 'extra': extra, 'log': list(p.log), 'mstate': mstate, 'own': own, 'pre_next': pre_next}
+
+    def post(self, ip, p, res):
+        ctx = ip.ctx
+        U = ctx.tok_ufs
+        a = res['cell'].v
+        subs2 = fld(ctx, a, 'TopicActor', 'subscriptions')
+        name_of = lambda t: mk(ctx, 'SubscriptionName', project_id=StrTok(U['sub_proj'](t)), subscription_id=StrTok(U['sub_id'](t)))
+        out = [Claim('the reply was attempted (handler ran to the end)', any(e[0] == 'oneshot.send-failed' for e in res['log']))]
+        if self.variant == 'AttachSubscription':
+            out.append(Claim('the subscription is attached although its creator is gone', subs2.found(name_of(res['extra']['tok']))))
+        elif self.variant == 'RemoveSubscription':
+            out.append(Claim('the subscription is detached', z3.Not(subs2.found(res['extra']['name']))))
+        elif self.variant == 'Delete':
+            tm = fld(ctx, res['mstate'].v, 'State', 'topics', 'topics/topic_manager')
+            out.append(Claim('the topic is deleted and unregistered', z3.And(fld(ctx, a, 'TopicActor', 'deleted').t, subs2.count() == 0, z3.Not(tm.found(res['own'])))))
+        elif self.variant == 'PublishMessages':
+            enq = [e for e in res['log'] if e[0] == 'enqueue']
+            nattached = z3.Sum([z3.If(u, 1, 0) for u, _ in res['ents']])
+            out.append(Claim('the message is posted to every attached subscription and the counter advanced',
+                             z3.And(nattached == len(enq), fld(ctx, a, 'TopicActor', 'next_message_id').t == res['pre_next'] + 1)))
+        out.append(Cover('ran'))
+        return out
+
+
+_obligations_before_topic = obligations
+
+
+def obligations(ctx, cfg):
+    obs = _obligations_before_topic(ctx, cfg)
+    for v in ('AttachSubscription', 'RemoveSubscription', 'Delete', 'PublishMessages'):
+        obs.append(TopicReceiveDropped(ctx, v))
+    return obs
